@@ -37,7 +37,7 @@ Section Found.
     assert (L : Later r acc r' acc).
     { constructor; auto. exists []. reflexivity. }
     split; [|exact L]. split.
-    - destruct C as [Csok Cattr Cheld Cdom Creg CrR Ckeys Cdecl CkR Ccplx]. constructor.
+    - destruct C as [Csok Cattr Cheld Cdom Creg CrR Ckeys Cdecl CkR Ccplx Crot]. constructor.
       + apply sok_holds; assumption.
       + intros i Hi. cbn [r_seq r_conc r_rate r']. rewrite A1, A2, A3. apply Cattr. exact Hi.
       + intros i Hi. cbn [r_st r']. unfold holds, with_roots. cbn [roots]. apply in_or_app. left. apply Cheld. exact Hi.
@@ -48,6 +48,7 @@ Section Found.
       + exact Cdecl.
       + intros j Hj. destruct (CkR j Hj) as [ri [H1 H2]]. exists ri. split; [exact H1 | eapply builtrxn_later; eauto].
       + intros n names sst Hin. destruct (Ccplx n names sst Hin) as [conc Hb]. exists conc. eapply builtcplx_later; eauto.
+      + exact Crot.
     - intros s Hs. eapply built_later; [exact L | apply B; exact Hs].
   Qed.
 
@@ -187,7 +188,7 @@ Section Found.
     assert (Hinst : isinst ct (r_st r1) a cd = true).
     { unfold isinst. change (heap (r_st r1)) with (heap st). rewrite Ha. apply subclass_refl. }
     assert (Einv : invert ct a r1 = (with_st r1 (hold (r_st r1) b), Ok b)).
-    { apply (invert_found ct cd PL r1 a b OK1). exists x, l, a, b. split; [exact P | left; auto]. }
+    { apply (invert_found ct cd cs cc cm cr PL r1 a b OK1). exists x, l, a, b. split; [exact P | left; auto]. }
     pose proof (file_obj_dom ct cd cs cc cm cr a accR r1 _ b Hinst Einv) as Ef. cbv zeta in Ef.
     assert (On1 : oname (r_st r1) a = x) by (unfold oname, obj_name; change (heap (r_st r1)) with (heap st); rewrite Ha; reflexivity).
     assert (On2 : oname (r_st (with_st r1 (hold (r_st r1) b))) b = star x).
@@ -232,7 +233,7 @@ Section Found.
     assert (Hst : map (fun _ : elem => Registry.cStar) es = map (fun _ : pstr => Registry.cStar) ds).
     { rewrite <- Hf1. rewrite map_map. reflexivity. }
     pose proof (si_reg _ _ _ _ _ _ _ _ _ C KindS ltac:(discriminate)) as RegS. cbn [cls_of ReaderSysA.cls_of dict_of] in RegS.
-    destruct (live_reg ct _ i _ I D3 eq_refl) as [N1 K1]. cbn [o_name o_key o_cls strand_obj new_obj] in N1, K1.
+    destruct (live_reg ct st i _ I D3 eq_refl) as [N1 K1]. cbn [o_name o_key o_cls strand_obj new_obj] in N1, K1.
     destruct (PL cs) as [ci [Hci Hfl]]; [cbn; auto|].
     assert (Ec : strand_call ct cs (holds st ids) (Some es) (Some n) None = (holds st ids, CRet i false)).
     { unfold strand_call. rewrite Hci.
